@@ -123,7 +123,7 @@ func makeExplorer(name, cfgs string, bound int, cache bool) (*vsched.Explorer, *
 		fail("unknown scenario %s", name)
 	}
 	cfg := parseCfg(cfgs)
-	if scen.DB == nil && (strings.Contains(name, "badger") || strings.HasPrefix(name, "IX") || strings.HasPrefix(name, "SH")) {
+	if scen.DB == nil && (strings.Contains(name, "badger") || strings.HasPrefix(name, "IX") || strings.HasPrefix(name, "SH") || strings.HasPrefix(name, "LM")) {
 		scen.DB = openDB()
 	}
 	body, spec := sc.Make(cfg)
